@@ -17,20 +17,27 @@ cp $V/props.json $V/known_findings.json $V/MANIFEST.json $sv/
 [ -x $sv/bin/kvc ] || { echo "selftest: build kvc first (./check C14 quick)"; exit 2; }
 run_one() {
   id=$1
+  prop=$(jq -r .property $V/seeded/$id/meta.json)
   c=$T/repo-$id
   git clone -q --shared /repo $c || return 2
   (cd $c && git apply $V/seeded/$id/patch.diff) || { echo "$id: patch does not apply"; rm -rf $c; return 1; }
   mkdir -p $T/v-$id && cp -r $sv/. $T/v-$id/
-  out=$(KVC_REPO=$c KVC_VERIF=$T/v-$id $sv/bin/kvc check $id quick 2>&1); rc=$?
-  n=$(echo "$out" | grep -c "^VIOLATION property=$id ")
+  out=$(KVC_REPO=$c KVC_VERIF=$T/v-$id $sv/bin/kvc check $prop quick 2>&1); rc=$?
+  n=$(echo "$out" | grep -c "^VIOLATION property=$prop ")
   first=$(echo "$out" | grep "^VIOLATION" | head -1 | sed 's/replay=[^ ]* //' | cut -c1-170)
   rm -rf $c $T/v-$id
   if [ $rc -eq 1 ] && [ $n -ge 1 ]; then echo "$id: caught ($n) $first"; return 0; fi
   echo "$id: MISSED (rc=$rc) $(echo "$out" | tail -1)"; return 1
 }
 fail=0
+par=${KVC_SELFTEST_PAR:-3}
+n=0
 for id in $ids; do
-  run_one $id || fail=1
+  ( run_one $id || echo "$id" >> $T/failed ) &
+  n=$((n+1))
+  if [ $((n % par)) -eq 0 ]; then wait; fi
 done
+wait
+[ -s $T/failed ] && fail=1
 [ $fail = 0 ] && echo "selftest: every seeded change is caught" || echo "selftest: some seeded change was missed"
 exit $fail
